@@ -1,8 +1,8 @@
 use std::ops::Range;
 
 use super::{
-	parse, AuthorityImpl, AuthorityMutImpl, FragmentImpl, PathImpl, PathMutImpl, QueryImpl,
-	RiBufImpl, RiImpl, SegmentImpl,
+	parse, AuthorityImpl, AuthorityMutImpl, FragmentImpl, PathBufImpl, PathImpl, PathMutImpl,
+	QueryImpl, RiBufImpl, RiImpl, SegmentImpl,
 };
 use crate::uri::Scheme;
 
@@ -390,6 +390,23 @@ pub trait RiRefBufImpl: Sized + RiRefImpl {
 		}
 	}
 
+	/// Removes the dot segments of the path as specified by RFC 3986,
+	/// Section 5.2.4: contrarily to [`PathMutImpl::normalize`], a final dot
+	/// segment leaves a trailing `/`.
+	fn remove_dot_segments(&mut self) {
+		let has_authority = self.authority().is_some();
+		let mut path = self.path_mut();
+		path.remove_dot_segments();
+
+		if !has_authority {
+			// AMBIGUITY: Without authority, a leading empty segment would be
+			//            confused with an authority (`scheme://foo`) or make
+			//            a relative path absolute.
+			// SOLUTION:  Leading empty segments are dropped.
+			path.remove_leading_empty_segments()
+		}
+	}
+
 	/// Resolve the URI/IRI reference.
 	///
 	/// ## Abnormal use of dot segments.
@@ -399,11 +416,11 @@ pub trait RiRefBufImpl: Sized + RiRefImpl {
 		let parts = parse::reference_parts(self.as_bytes(), 0);
 
 		if parts.scheme.is_some() {
-			self.path_mut().normalize();
+			self.remove_dot_segments();
 		} else {
 			self.set_scheme(Some(base_iri.scheme()));
 			if parts.authority.is_some() {
-				self.path_mut().normalize();
+				self.remove_dot_segments();
 			} else if self.path().is_relative() && self.path().is_empty() {
 				self.set_authority(base_iri.authority());
 				self.set_path(base_iri.path());
@@ -412,24 +429,28 @@ pub trait RiRefBufImpl: Sized + RiRefImpl {
 				}
 			} else if self.path().is_absolute() {
 				self.set_authority(base_iri.authority());
-				self.path_mut().normalize();
+				self.remove_dot_segments();
 			} else {
-				self.set_authority(base_iri.authority());
-				let mut path_buffer = Self::RiBuf::from_scheme(base_iri.scheme().to_owned()); // we set the scheme to avoid path disambiguation.
-				path_buffer.set_authority(base_iri.authority()); // we set the authority to avoid path disambiguation.
-
-				if base_iri.authority().is_some() && base_iri.path().is_empty() {
-					path_buffer.set_path(Self::Path::EMPTY_ABSOLUTE);
+				// Merge (RFC 3986, Section 5.2.3).
+				let mut merged = if base_iri.authority().is_some() && base_iri.path().is_empty() {
+					Self::Path::EMPTY_ABSOLUTE.to_path_buf()
 				} else {
-					path_buffer.set_path(base_iri.path().parent_or_empty());
-					path_buffer.path_mut().normalize();
+					base_iri.path().directory().to_path_buf()
+				};
+
+				unsafe {
+					// SAFETY: `merged` is empty or ends with a `/`, so appending a
+					//         relative path to it gives a valid path.
+					merged
+						.as_mut_vec()
+						.extend_from_slice(self.path().as_bytes());
 				}
 
-				path_buffer
-					.path_mut()
-					.symbolic_append(self.path().segments());
-
-				self.set_path(path_buffer.path());
+				self.set_authority(base_iri.authority());
+				self.set_path(unsafe {
+					Self::Path::new_unchecked(PathBufImpl::as_bytes(&merged))
+				});
+				self.remove_dot_segments();
 			}
 		}
 	}
